@@ -117,7 +117,7 @@ func runC12(c *ctx, dist string, in time.Duration, rates []int, draws []int, cal
 // runC12File: the same through the config-file front end - a staged stage with a flat profile of `rate` per
 // `freq`, spread by `dist`; the tick interval and the rate function are the ones the PARSED STAGE carries (what the
 // stage runner will use): the interval must be the 100 ms sub-tick and every cycle of freq/100ms calls hands out `rate`
-func runC12File(dist string, freq time.Duration, rate, cycles int) (tr c12trace) {
+func runC12File(dist, defDist string, freq time.Duration, rate, cycles int) (tr c12trace) {
 	tr = c12trace{Dist: dist, InMs: freq.Milliseconds(), Frac: frac(freq), Rates: []int{rate}, NoEvals: true, Ev: []c12ev{}}
 	defer func() {
 		if r := recover(); r != nil {
@@ -125,8 +125,13 @@ func runC12File(dist string, freq time.Duration, rate, cycles int) (tr c12trace)
 			tr.Err = fmt.Sprint(r)
 		}
 	}()
-	y := fmt.Sprintf("scenario: scn\nlimits:\n  max-duration: 1h\n  concurrency: 4\n  max-iterations: 0\n  ignore-dropped: true\n"+
-		"default:\n  jitter: 0\nstages:\n- mode: staged\n  duration: 1h\n  stages: 0s:%d,1h:%d\n  iteration-frequency: %s\n  distribution: %s\n", rate, rate, freq, dist)
+	y := fmt.Sprintf("scenario: scn\nlimits:\n  max-duration: 1h\n  concurrency: 4\n  max-iterations: 0\n  ignore-dropped: true\n" +
+		"default:\n  jitter: 0\n")
+	if defDist != "" {
+		// the default section names ANOTHER distribution: the stage's own wins
+		y += "  distribution: " + defDist + "\n"
+	}
+	y += fmt.Sprintf("stages:\n- mode: staged\n  duration: 1h\n  stages: 0s:%d,1h:%d\n  iteration-frequency: %s\n  distribution: %s\n", rate, rate, freq, dist)
 	now := time.Date(2030, 1, 2, 3, 4, 0, 0, time.UTC)
 	rs, err := file.ParseConfigFile([]byte(y), now)
 	if err != nil || len(rs.Stages) != 1 || rs.Stages[0].Rate == nil {
@@ -256,7 +261,8 @@ func init() {
 		// through the config-file front end
 		for _, dist := range []string{"regular", "random", "none"} {
 			for _, fr := range []time.Duration{time.Second, 500 * ms, 300 * ms, 100 * ms, 2 * time.Second} {
-				w.write(runC12File(dist, fr, []int{1, 7, 20, 113}[c.rng.Intn(4)], 6))
+				w.write(runC12File(dist, "", fr, []int{1, 7, 20, 113}[c.rng.Intn(4)], 6))
+				w.write(runC12File(dist, map[string]string{"regular": "none", "random": "regular", "none": "random"}[dist], fr, []int{1, 7, 20, 113}[c.rng.Intn(4)], 6))
 			}
 		}
 		fmt.Println("c12 traces:", w.n)
